@@ -349,7 +349,7 @@ def r7(run, db):
                 ok_edge = nested_variant_edge(lb, aw2[0].poll, ["Ready", "Ok"])
                 brs = try_branches_on(lb, aw2[0].poll)
                 running = [x for x, v in set_status_calls(lb) if v == "Running"]
-                good = ok_edge and lb.edge_dominates(ok_edge, site) and len(brs) >= 2 and all(b["cont_edge"] and lb.edge_dominates(b["cont_edge"], site) for b in brs)
+                good = ok_edge and lb.edge_dominates(ok_edge, site) and result_layers_checked(brs, (2, 3)) and all(b["cont_edge"] and lb.edge_dominates(b["cont_edge"], site) for b in brs)
                 run.check(good, "%s|ActorStarted-after-post_start-ok" % rt, "ActorStarted is dominated by post_start's Ok edges", "ActorStarted can be sent although post_start failed", lb.where())
                 run.check(bool(running) and lb.dominates(running[0].site, site), "%s|ActorStarted-after-Running" % rt, "ActorStarted is sent after set_status(Running)", None, lb.where())
 
